@@ -162,6 +162,9 @@ def order_lines(ctx, rng, reqs, impl):
     the three results stay aligned (oracle) and the order is the model's sort by jittered key (exact)."""
     from pero_ocr.layout_engines import layout_helpers as helpers
     import random as _random
+    if not (hasattr(helpers, 'order_lines_vertical') and hasattr(helpers, 'random')):
+        ctx.notes.append('order_lines_vertical / its random source are no longer where the harness observes them: that correspondence is skipped')
+        return
     for it in range(60 if ctx.quick() else 800):
         n = rng.randrange(0, 8)
         ys = [rng.choice([10, 10, 20, 30, 30.5, 31, rng.randrange(0, 60)]) for _ in range(n)]
